@@ -1,14 +1,13 @@
 CONSTANTS
   MaxOps = 3
   Export = TRUE
-  ShapeSet = {"flat", "mixed", "twins"}
+  ShapeSet = {"mixed"}
   ValSet = "three"
+  DataMod = 9
+  Track = TRUE
 SPECIFICATION Spec
-INVARIANT EnvIsEnvelope
-INVARIANT OrderIndependent
-INVARIANT LabelLaw
-INVARIANT FormLaws
-INVARIANT SplitLaw
 INVARIANT Bounded
+INVARIANT FreshAfterForm
+INVARIANT CleanAfterDelete
 INVARIANT ExportHist
 CHECK_DEADLOCK FALSE
